@@ -94,7 +94,7 @@ AutoOnV1 == OnCnf(LET want == Ok(CnfTT(f, SS)) IN \A in \in V1Inputs(f) : AutoRu
 \* mixed texts are rejected
 Rejected(in) == AutoDetect(in) = "error"
 AutoOnMixed == OnCnf(HasNeg(f) => \A s \in MixedStyles : \A in \in MixedInputs(f, s) :
-                                     IsMixed(in) /\ (Rejected(in) \/ KF_C08_1(in)))
+                                     IsMixed(in) /\ Rejected(in))
 \* auto-detection of a pure v2 rendering yields the v2 meaning (the meaning is TagExpr's own parse of that text,
 \* which TagExpr_MC proves equal to the rendered tree)
 AutoV2(in) == AutoRun(in, SS) = V2Run(in, SS)
@@ -110,9 +110,7 @@ Size(x) == Len(Flat(x))
 Witness ==
    /\ OnCnf(Size(f) <= 2 =>
          /\ LET want == Ok(CnfTT(f, SS)) IN \A in \in V1Inputs(f) :
-                (AutoRun(in, SS) # want /\ KF_C08_2(in)) => PrintT(<<"KFHIT", "AutoOnV1", "KF_C08_2", ToJson(in)>>)
-         /\ HasNeg(f) => \A in \in MixedInputs(f, 1) :
-                (~Rejected(in) /\ KF_C08_1(in)) => PrintT(<<"KFHIT", "AutoOnMixed", "KF_C08_1", ToJson(in)>>))
+                (AutoRun(in, SS) # want /\ KF_C08_2(in)) => PrintT(<<"KFHIT", "AutoOnV1", "KF_C08_2", ToJson(in)>>))
    /\ OnV2(t.op = "lit" => \A in \in V2Inputs(t) :
          (IsPureV2(in) /\ ~AutoV2(in) /\ KF_C08_3(in)) => PrintT(<<"KFHIT", "AutoOnV2", "KF_C08_3", ToJson(in)>>))
 
